@@ -36,6 +36,7 @@ var Litmus = map[string]func() string{
 	"wg-reuse":          wgReuse,
 	"handoff-chain":     handoffChain,
 	"select-loop-drain": selectLoopDrain,
+	"once-rearmed":      onceRearmed,
 }
 
 func rendezvous() string {
@@ -169,6 +170,19 @@ func once() string {
 	}
 	wg.Wait()
 	return fmt.Sprint(runs, res)
+}
+
+// a Once that is overwritten with its zero value runs its function again
+func onceRearmed() string {
+	type holder struct{ o sync.Once }
+	h := &holder{}
+	n := 0
+	h.o.Do(func() { n++ })
+	h.o.Do(func() { n++ })
+	h.o = sync.Once{}
+	h.o.Do(func() { n += 10 })
+	h.o.Do(func() { n += 10 })
+	return fmt.Sprint(n)
 }
 
 func mutexCounter() string {
